@@ -196,7 +196,13 @@ def observe(W, res):
             'ents': [h(e) for e in vmf.entities],
             'objs': [None if o is None else [[codes(k), codes(v)] for k, v in list(o.items())] for o in W.objs[m]],
             'cls': cls, 'tgt': tgt})
-        srch.append([sorted(h(e) for e in vmf.search(q)) for q in QUERIES])
+        found = []
+        for q in QUERIES:
+            try:
+                found.append(sorted(h(e) for e in vmf.search(q)))
+            except Exception as exc:
+                found.append('exc:' + type(exc).__name__)
+        srch.append(found)
     return {'res': res, 'maps': maps, 'search': srch}
 
 
@@ -539,7 +545,12 @@ def correspond(ctx, drivers):
         batch.clear(); meta.clear()
 
     for src, ops in _histories(ctx):
-        done, obs, fail = run_impl(ops, want_obs=True)
+        try:
+            done, obs, fail = run_impl(ops, want_obs=True)
+        except Exception as exc:      # the implementation broke in a way the harness does not expect
+            ctx.witness('exception', f'running/observing a history raised {type(exc).__name__}: {exc}', {'ops': ops, 'at': len(ops) - 1})
+            ctx.count('harness-exception')
+            continue
         if fail is not None and ctx.hist.get('witnesses', 0) < 200:
             _record_witness(ctx, done, fail)
         batch.append({'fold': FOLD_TABLE, 'queries': [codes(q) for q in QUERIES], 'ops': done})
